@@ -175,6 +175,10 @@ func (z *Zone) Truth(qname string, qtype uint16) Outcome {
 		}
 		return Outcome{Kind: "nodata", Wildcard: true, Source: wc, Closest: ce}
 	}
+	if z.Exists(wc) {
+		// the source of synthesis exists as an empty non-terminal (RFC 4592 §2.2.2, §3.3.1): it matches, and has nothing
+		return Outcome{Kind: "nodata", Wildcard: true, ENT: true, Source: wc, Closest: ce}
+	}
 	return Outcome{Kind: "nxdomain", Closest: ce}
 }
 
